@@ -1,12 +1,458 @@
-//! C20 — monitor not built yet (stub so that the registry is complete).
+//! C20 — format-string parsing yields the arguments the format consumes.
+//!
+//! Monitor shape: grammar-based generator + an independent hand-written scanner
+//! of the supported grammar (no regex) next to the real
+//! `utils::arguments::parse_format_string_parameters`.
+//!
+//! Grammar (from the property statement / the documentation of the parser):
+//!   format  := ( literal | "%%" | spec )*
+//!   literal := any text without '%'
+//!   spec    := '%' [one of + - # 0]? [0-9]* ( '.' [0-9]* )? conv
+//!   conv    := c C d i o u x X e E f F g G a A n p s S
+//!            | hi hd hu | li ld lu | lli lld llu
+//!            | lf lg le la lF lG lE lA | Lf Lg Le La LF LG LE LA
+//! Documented argument types (printf(3)/scanf(3) + default argument promotion):
+//!   c C            -> char promoted to int           (Char or Integer, size of int)
+//!   d i o u x X    -> int                            (Integer, size of int)
+//!   hi hd hu       -> short promoted to int          (Integer or Short, size of int)
+//!   e E f F g G a A and the l-prefixed float forms -> double (Double, size of double)
+//!   s S n p        -> pointer                        (Pointer, size of pointer)
+//!   li ld lu / lli lld llu / L-forms -> long / long long / long double: the whole string is rejected (Err).
+
 use crate::core::*;
+use crate::prng::{hash_str, mix, Rng};
+use cwe_checker_lib::intermediate_representation::{ByteSize, Datatype, DatatypeProperties};
+use cwe_checker_lib::utils::arguments::parse_format_string_parameters;
+use serde_json::{json, Value};
 
 pub fn info() -> CheckInfo {
     CheckInfo {
         id: "C20",
-        rule: "(monitor not built yet)",
-        assumptions: &[],
-        run: |_cfg| Report::new(),
-        replay: |_cfg, _case| Report::new(),
+        rule: "format strings generated from the supported grammar (literal text without '%', '%%' escapes, %[flag][width][.precision]conv over all 45 listed conversion/length forms) are parsed by parse_format_string_parameters under 5 DatatypeProperties configurations and compared with an independent hand-written scanner: same number of entries, in order, documented data type and size (char/short promoted to int), Err iff a long/long long/long double form occurs. Part 1 exhaustive: every single conversion spec x flag x width x precision x 7 prefix contexts x 7 suffix contexts; part 2 random sequences of 0..8 items with adversarial adjacency ('%%' before conversion letters/digits/length prefixes, back-to-back conversions, odd/even runs of '%'). non-trivial = the string contains at least one '%'; distinct = hash of (string, configuration)",
+        assumptions: &[
+            "only strings inside the stated grammar are generated: every '%' starts either '%%' or a complete conversion specification with at most one flag, ASCII digits, and one of the listed conversion/length forms; '*' widths, the space flag, 'hh', 'j', 'z', 't', 'q' and positional '$' forms are outside the grammar and not generated",
+            "documented types are taken from printf(3)/scanf(3): %p consumes a pointer; %c/%C consume an int-sized argument (the implementation may call it Char or Integer); %h* consume an int-sized argument (Integer or Short accepted)",
+            "the generator's constructive expectation and the scanner's expectation must agree, otherwise the case is inconclusive (never a verdict)",
+            "verdicts on the release profile",
+        ],
+        run,
+        replay,
     }
+}
+
+// ---------------------------------------------------------------------------
+// The oracle: an independent scanner of the grammar.
+
+#[derive(Clone, Copy, PartialEq, Eq, Debug)]
+enum Kind {
+    CharInt,
+    Int,
+    ShortInt,
+    Dbl,
+    Ptr,
+    Long,
+    LongLong,
+    LongDouble,
+}
+
+/// All conversion/length forms of the grammar with the kind of argument they consume.
+const FORMS: &[(&str, Kind)] = &[
+    ("c", Kind::CharInt),
+    ("C", Kind::CharInt),
+    ("d", Kind::Int),
+    ("i", Kind::Int),
+    ("o", Kind::Int),
+    ("u", Kind::Int),
+    ("x", Kind::Int),
+    ("X", Kind::Int),
+    ("e", Kind::Dbl),
+    ("E", Kind::Dbl),
+    ("f", Kind::Dbl),
+    ("F", Kind::Dbl),
+    ("g", Kind::Dbl),
+    ("G", Kind::Dbl),
+    ("a", Kind::Dbl),
+    ("A", Kind::Dbl),
+    ("n", Kind::Ptr),
+    ("p", Kind::Ptr),
+    ("s", Kind::Ptr),
+    ("S", Kind::Ptr),
+    ("hi", Kind::ShortInt),
+    ("hd", Kind::ShortInt),
+    ("hu", Kind::ShortInt),
+    ("li", Kind::Long),
+    ("ld", Kind::Long),
+    ("lu", Kind::Long),
+    ("lli", Kind::LongLong),
+    ("lld", Kind::LongLong),
+    ("llu", Kind::LongLong),
+    ("lf", Kind::Dbl),
+    ("lg", Kind::Dbl),
+    ("le", Kind::Dbl),
+    ("la", Kind::Dbl),
+    ("lF", Kind::Dbl),
+    ("lG", Kind::Dbl),
+    ("lE", Kind::Dbl),
+    ("lA", Kind::Dbl),
+    ("Lf", Kind::LongDouble),
+    ("Lg", Kind::LongDouble),
+    ("Le", Kind::LongDouble),
+    ("La", Kind::LongDouble),
+    ("LF", Kind::LongDouble),
+    ("LG", Kind::LongDouble),
+    ("LE", Kind::LongDouble),
+    ("LA", Kind::LongDouble),
+];
+
+/// One argument-consuming conversion found by the scanner: (form index, byte offset of its '%', end offset).
+type Found = (usize, usize, usize);
+
+/// Scan `s` with the grammar. `Err(pos)` = the string is outside the grammar at byte `pos`.
+fn scan(s: &str) -> Result<Vec<Found>, usize> {
+    let b = s.as_bytes();
+    let mut out = Vec::new();
+    let mut i = 0;
+    while i < b.len() {
+        if b[i] != b'%' {
+            i += 1; // literal text (bytes of multi-byte characters are never '%')
+            continue;
+        }
+        let start = i;
+        i += 1;
+        if b.get(i) == Some(&b'%') {
+            i += 1; // escape, consumes no argument
+            continue;
+        }
+        if matches!(b.get(i), Some(b'+' | b'-' | b'#' | b'0')) {
+            i += 1;
+        }
+        while matches!(b.get(i), Some(c) if c.is_ascii_digit()) {
+            i += 1;
+        }
+        if b.get(i) == Some(&b'.') {
+            i += 1;
+            while matches!(b.get(i), Some(c) if c.is_ascii_digit()) {
+                i += 1;
+            }
+        }
+        // the forms are prefix-free, so at most one of them matches here
+        let rest = &b[i..];
+        match FORMS.iter().position(|(f, _)| rest.starts_with(f.as_bytes())) {
+            Some(idx) => {
+                i += FORMS[idx].0.len();
+                out.push((idx, start, i));
+            }
+            None => return Err(start),
+        }
+    }
+    Ok(out)
+}
+
+fn rejected(k: Kind) -> bool {
+    matches!(k, Kind::Long | Kind::LongLong | Kind::LongDouble)
+}
+
+/// Accepted data types and the size of the consumed argument for one kind.
+fn expected_entry(k: Kind, p: &DatatypeProperties) -> (&'static [Datatype], ByteSize) {
+    match k {
+        Kind::CharInt => (&[Datatype::Char, Datatype::Integer], p.integer_size),
+        Kind::Int => (&[Datatype::Integer], p.integer_size),
+        Kind::ShortInt => (&[Datatype::Integer, Datatype::Short], p.integer_size),
+        Kind::Dbl => (&[Datatype::Double], p.double_size),
+        Kind::Ptr => (&[Datatype::Pointer], p.pointer_size),
+        Kind::Long => (&[Datatype::Long], p.long_size),
+        Kind::LongLong => (&[Datatype::LongLong], p.long_long_size),
+        Kind::LongDouble => (&[Datatype::LongDouble], p.long_double_size),
+    }
+}
+
+// ---------------------------------------------------------------------------
+// Configurations
+
+fn props(char_: u64, short: u64, int: u64, long: u64, longlong: u64, float: u64, double: u64, longdouble: u64, pointer: u64) -> DatatypeProperties {
+    DatatypeProperties {
+        char_size: ByteSize::new(char_),
+        double_size: ByteSize::new(double),
+        float_size: ByteSize::new(float),
+        integer_size: ByteSize::new(int),
+        long_double_size: ByteSize::new(longdouble),
+        long_long_size: ByteSize::new(longlong),
+        long_size: ByteSize::new(long),
+        pointer_size: ByteSize::new(pointer),
+        short_size: ByteSize::new(short),
+    }
+}
+
+fn configs() -> Vec<(&'static str, DatatypeProperties)> {
+    vec![
+        ("lp64", props(1, 2, 4, 8, 8, 4, 8, 16, 8)),
+        ("ilp32", props(1, 2, 4, 4, 8, 4, 8, 12, 4)),
+        ("int16", props(1, 2, 2, 4, 8, 4, 4, 8, 2)),
+        ("all-distinct", props(1, 2, 3, 5, 7, 4, 6, 11, 9)),
+        ("ilp64", props(1, 2, 8, 8, 8, 4, 8, 16, 8)),
+    ]
+}
+
+// ---------------------------------------------------------------------------
+// The check of one (string, configuration)
+
+fn check_one(fmt: &str, cfg_name: &str, p: &DatatypeProperties, constructive: Option<&[usize]>, rep: &mut Report, track: bool) {
+    rep.eval();
+    let case = || json!({"fmt": fmt, "config": cfg_name, "props": p});
+    // smallest string first; among equal strings prefer the most familiar configuration
+    let size = fmt.len() as u64 * 8 + configs().iter().position(|(n, _)| *n == cfg_name).unwrap_or(7) as u64;
+    let found = match scan(fmt) {
+        Ok(f) => f,
+        Err(pos) => {
+            rep.inconclusive("string-outside-grammar");
+            rep.note(format!("string {fmt:?} is outside the grammar at byte {pos}; skipped"));
+            return;
+        }
+    };
+    if let Some(c) = constructive {
+        if c.len() != found.len() || c.iter().zip(found.iter()).any(|(a, (b, _, _))| a != b) {
+            rep.inconclusive("generator-and-scanner-disagree");
+            rep.note(format!("generator and scanner disagree on {fmt:?}"));
+            return;
+        }
+    }
+    let kinds: Vec<Kind> = found.iter().map(|(i, _, _)| FORMS[*i].1).collect();
+    let expect_err = kinds.iter().any(|k| rejected(*k));
+    let has_escape = fmt.contains("%%");
+    let ctx = if has_escape { "with-escape" } else { "no-escape" };
+    let exp_text = || {
+        if expect_err {
+            "Err (long/long long/long double conversion present)".to_string()
+        } else {
+            format!(
+                "Ok({:?})",
+                kinds.iter().map(|k| { let (t, s) = expected_entry(*k, p); (t[0].clone(), u64::from(s)) }).collect::<Vec<_>>()
+            )
+        }
+    };
+    let got = guard(|| parse_format_string_parameters(fmt, p));
+    match got {
+        Err(msg) => rep.violation(
+            format!("parse:panic:{}", panic_site(&msg)),
+            None,
+            format!("parse_format_string_parameters({fmt:?}) panicked: {msg}; expected {}", exp_text()),
+            case(),
+            size,
+        ),
+        Ok(Err(e)) => {
+            if !expect_err {
+                rep.violation(
+                    format!("parse:err-for-supported:{ctx}"),
+                    None,
+                    format!("parse_format_string_parameters({fmt:?}) = Err({e}); expected {}", exp_text()),
+                    case(),
+                    size,
+                );
+            }
+        }
+        Ok(Ok(list)) => {
+            let shown: Vec<(Datatype, u64)> = list.iter().map(|(t, s)| (t.clone(), u64::from(*s))).collect();
+            if expect_err {
+                rep.violation(
+                    format!("parse:ok-for-long:{ctx}"),
+                    None,
+                    format!("parse_format_string_parameters({fmt:?}) = Ok({shown:?}); expected {}", exp_text()),
+                    case(),
+                    size,
+                );
+            } else if list.len() != kinds.len() {
+                let dir = if list.len() > kinds.len() { "too-many" } else { "too-few" };
+                rep.violation(
+                    format!("parse:count:{dir}:{ctx}"),
+                    None,
+                    format!("parse_format_string_parameters({fmt:?}) = Ok({shown:?}) ({} entries); expected {} ({} entries)", list.len(), exp_text(), kinds.len()),
+                    case(),
+                    size,
+                );
+            } else {
+                for (n, ((dt, sz), (form_idx, _, _))) in list.iter().zip(found.iter()).enumerate() {
+                    let (form, kind) = FORMS[*form_idx];
+                    let (types, esz) = expected_entry(kind, p);
+                    if !types.contains(dt) {
+                        rep.violation(
+                            format!("parse:wrong-type:%{form}"),
+                            None,
+                            format!("parse_format_string_parameters({fmt:?}) entry {n} (conversion %{form}) has data type {dt:?}, documented type is {:?}; full result Ok({shown:?}), expected {}", types[0], exp_text()),
+                            case(),
+                            size,
+                        );
+                    } else if *sz != esz {
+                        rep.violation(
+                            format!("parse:wrong-size:%{form}"),
+                            None,
+                            format!("parse_format_string_parameters({fmt:?}) entry {n} (conversion %{form}) has size {sz}, expected {esz} under configuration {cfg_name}; full result Ok({shown:?}), expected {}", exp_text()),
+                            case(),
+                            size,
+                        );
+                    }
+                }
+            }
+        }
+    }
+    if fmt.contains('%') {
+        rep.nontrivial(mix(hash_str(fmt), hash_str(cfg_name)));
+    }
+    if track {
+        for (i, _, _) in &found {
+            rep.obs(&format!("conv:%{}", FORMS[*i].0));
+        }
+        rep.obs(if expect_err { "expected:err" } else { "expected:ok" });
+        rep.obs(&format!("args:{}", kinds.len().min(9)));
+        rep.obs(&format!("config:{cfg_name}"));
+        if has_escape {
+            rep.obs("has-escape");
+            // an escape directly followed by something that looks like the rest of a conversion
+            let b = fmt.as_bytes();
+            let mut i = 0;
+            while i + 1 < b.len() {
+                if b[i] == b'%' && b[i + 1] == b'%' {
+                    match b.get(i + 2) {
+                        Some(nxt) if nxt.is_ascii_digit() || b"+-#.".contains(nxt) => rep.obs("escape-then-flag-or-digit"),
+                        Some(nxt) if nxt.is_ascii_alphabetic() => rep.obs("escape-then-letter"),
+                        Some(b'%') => rep.obs("escape-then-percent"),
+                        _ => (),
+                    }
+                    i += 2;
+                } else {
+                    i += 1;
+                }
+            }
+        }
+        for w in found.windows(2) {
+            if w[0].2 == w[1].1 {
+                rep.obs("back-to-back-conversions");
+            }
+        }
+    }
+}
+
+// ---------------------------------------------------------------------------
+// Generators
+
+const FLAGS: &[&str] = &["", "+", "-", "#", "0"];
+const WIDTHS: &[&str] = &["", "1", "10", "08", "0", "123"];
+const PRECS: &[&str] = &["", ".", ".0", ".5", ".12"];
+const PREFIX_CTX: &[&str] = &["", "%%", "a", "%%%%", "%d", "x%%", "5"];
+const SUFFIX_CTX: &[&str] = &["", "d", "%%", "%s", "ld", "%%d", "5"];
+
+const LITERAL_ATOMS: &[&str] = &[
+    "d", "i", "u", "x", "s", "c", "f", "n", "p", "h", "l", "L", "ll", "hd", "ld", "lld", "Lf", "lf", "S", "C", "a", "A", "e", "G", "0", "1", "5", "10", "08", ".", ".5", "+", "-", "#", " ", "\n", "\t", ":", "/", "\"", "'", "\\", "$", "*", "z", "q", "j", "t", "k", "w", "é", "٣", "日", "Hello", "errno=", "0x",
+];
+
+/// Generate one format string together with the constructive list of form indices.
+fn gen_string(rng: &mut Rng) -> (String, Vec<usize>) {
+    let mut s = String::new();
+    let mut forms = Vec::new();
+    let n_items = rng.below(9);
+    let allow_long = rng.chance(1, 5);
+    let escape_heavy = rng.chance(1, 3);
+    for _ in 0..n_items {
+        let roll = rng.below(10);
+        if roll < 3 || (escape_heavy && roll < 5) {
+            // escapes: 1..3 of them in a row
+            for _ in 0..1 + rng.below(3) {
+                s.push_str("%%");
+            }
+        } else if roll < 6 {
+            for _ in 0..1 + rng.below(3) {
+                s.push_str(*rng.pick(LITERAL_ATOMS));
+            }
+        } else {
+            let idx = loop {
+                let i = rng.usize_below(FORMS.len());
+                if allow_long || !rejected(FORMS[i].1) {
+                    break i;
+                }
+            };
+            s.push('%');
+            if rng.chance(1, 3) {
+                s.push_str(*rng.pick(&FLAGS[1..]));
+            }
+            if rng.chance(1, 3) {
+                s.push_str(*rng.pick(&WIDTHS[1..]));
+            }
+            if rng.chance(1, 3) {
+                s.push_str(*rng.pick(&PRECS[1..]));
+            }
+            s.push_str(FORMS[idx].0);
+            forms.push(idx);
+        }
+    }
+    (s, forms)
+}
+
+fn run(cfg: &Cfg) -> Report {
+    let cfgs = configs();
+    // part 1: exhaustive single specs, one shard per (form, config)
+    let exh_shards = FORMS.len();
+    let rnd_shards = cfg.tier.pick(160usize, 960usize);
+    let per_shard = cfg.tier.pick(1_500u64, 15_000u64);
+    let mut rep = par_shards(cfg, "c20", exh_shards + rnd_shards, |idx, rng, rep| {
+        if idx < exh_shards {
+            let form_idx = idx;
+            let form = FORMS[form_idx].0;
+            let mut n = 0u64;
+            for pre in PREFIX_CTX {
+                for suf in SUFFIX_CTX {
+                    for flag in FLAGS {
+                        for width in WIDTHS {
+                            for prec in PRECS {
+                                let fmt = format!("{pre}%{flag}{width}{prec}{form}{suf}");
+                                n += 1;
+                                // the configuration only selects the size table: rotate it
+                                let (name, p) = &cfgs[(n as usize + form_idx) % cfgs.len()];
+                                check_one(&fmt, name, p, None, rep, n % 97 == 0);
+                            }
+                        }
+                    }
+                }
+            }
+            // every form alone under every configuration
+            for (name, p) in &cfgs {
+                check_one(&format!("%{form}"), name, p, None, rep, true);
+            }
+            if form_idx == 0 {
+                rep.exhaustive_parts.push("every single conversion spec (45 forms x 5 flags x 6 widths x 5 precisions) in 7 prefix x 7 suffix contexts (configurations rotated); every bare form under every configuration".into());
+            }
+        } else {
+            for k in 0..per_shard {
+                let (fmt, forms) = gen_string(rng);
+                let (name, p) = &cfgs[rng.usize_below(cfgs.len())];
+                check_one(&fmt, name, p, Some(&forms), rep, true);
+                if k < 1 && idx % 40 == 0 && rep.wants_sample() && fmt.contains('%') {
+                    let got = guard(|| parse_format_string_parameters(&fmt, p).map_err(|e| e.to_string()));
+                    rep.sample(json!({
+                        "fmt": fmt,
+                        "config": name,
+                        "scanner_forms": scan(&fmt).map(|f| f.iter().map(|(i, _, _)| format!("%{}", FORMS[*i].0)).collect::<Vec<_>>()).unwrap_or_default(),
+                        "observed": format!("{got:?}"),
+                    }));
+                }
+            }
+        }
+    });
+    // fixed adversarial witnesses (always run, also documented as samples)
+    let (name, p) = &cfgs[0];
+    for fmt in ["%%d", "%%%d", "%%%%d", "%d%%d", "%%5d", "%%ld", "%%Lf", "%%%ld", "%%.5s", "%%", ""] {
+        check_one(fmt, name, p, None, &mut rep, true);
+    }
+    rep.sample(json!({"fmt": "%%d", "config": name, "scanner_forms": [], "expected": "Ok([])"}));
+    rep.sample(json!({"fmt": "%%%d", "config": name, "scanner_forms": ["%d"], "expected": "Ok([(Integer, 4)])"}));
+    rep
+}
+
+fn replay(_cfg: &Cfg, case: &Value) -> Report {
+    let mut rep = Report::new();
+    let fmt = case["fmt"].as_str();
+    let p = serde_json::from_value::<DatatypeProperties>(case["props"].clone());
+    match (fmt, p) {
+        (Some(fmt), Ok(p)) => check_one(fmt, case["config"].as_str().unwrap_or("replay"), &p, None, &mut rep, true),
+        _ => rep.note("replay case lacks fmt/props"),
+    }
+    rep
 }
